@@ -558,7 +558,38 @@ class RefSolver(object):
                 raise Illegal("malformed annotation")
             return self._compile(t[1], bound)
         if head in (Sym("forall"), Sym("exists")) and not head.quoted:
-            raise Unsupported()
+            # quantifiers over finite sorts (Bool, small bit-vectors, declared sorts)
+            if len(t) != 3 or not isinstance(t[1], list) or not t[1]:
+                raise Illegal("malformed quantifier")
+            qnames, qsorts = [], []
+            for b in t[1]:
+                if not isinstance(b, list) or len(b) != 2 or not isinstance(b[0], Sym):
+                    raise Illegal("malformed sorted variable")
+                if b[0].name in qnames:
+                    raise Illegal("duplicate bound variable %s" % b[0].name)
+                qnames.append(b[0].name)
+                qsorts.append(self._sort(b[1]))
+            qdoms = [self._domain(s_) for s_ in qsorts]
+            if any(d is None for d in qdoms):
+                raise Unsupported()
+            b2 = dict(bound)
+            b2.update(zip(qnames, qsorts))
+            bs, bf = self._compile(t[2], b2)
+            if bs != BOOL:
+                raise Illegal("quantified term has sort %s" % (bs,))
+            universal = head == Sym("forall")
+
+            def run_q(m, l, qnames=qnames, qdoms=qdoms, bf=bf, universal=universal):
+                for vals in itertools.product(*qdoms):
+                    l2 = dict(l)
+                    l2.update(zip(qnames, vals))
+                    r = bf(m, l2)
+                    if universal and not r:
+                        return False
+                    if not universal and r:
+                        return True
+                return universal
+            return BOOL, run_q
         # ---- indexed operators  ((_ op i...) args)
         if isinstance(head, list):
             if len(head) >= 3 and head[0] == Sym("_") and isinstance(head[1], Sym) and \
